@@ -30,6 +30,7 @@ const MaxOps = 200000
 
 // op records an operation and returns the fault planned for it, if any.
 func op(kind, path string) (seq int, f *Fault) {
+	GateWait()
 	mu.Lock()
 	defer mu.Unlock()
 	if cur == nil {
